@@ -4,7 +4,7 @@ Trace == ndJsonDeserialize(IOEnv.TRACE_FILE)
 VARIABLE l
 Norm(c) == [tool |-> c.tool, content |-> c.content, schema |-> c.schema, profile |-> c.profile, flags |-> {c.flags[j] : j \in DOMAIN c.flags}]
 Judge(r) == LET f == Fails(Norm(r.case), r.obs) IN IF f = {} THEN TRUE ELSE PrintT(ToJson([i |-> r.i, fails |-> f]))
-TInit == l = 1 /\ cl = [tool |-> "validate", content |-> "valid", schema |-> "unknown", profile |-> "STANDARD", flags |-> {}, done |-> TRUE]
+TInit == l = 1 /\ cl = [tool |-> "validate", content |-> "valid", schema |-> "unknown", profile |-> "STANDARD", spell |-> "upper", flags |-> {}, done |-> TRUE]
 TNext == l <= Len(Trace) /\ Judge(Trace[l]) /\ l' = l + 1 /\ UNCHANGED cl
 TAccepted == TLCGet("stats").diameter - 1 = Len(Trace)
 =============================================================================
